@@ -912,6 +912,49 @@ func genSingleFamily(r *sim.Rand) kase {
 	return k
 }
 
+// genDeclaredSiblings: the known endpoints declare the same parameter under t sibling prefixes of identical
+// shape (api.com/v1/user/{id} ... api.com/vt/user/{id}); traffic on them is aggregated first, then a further
+// prefix crosses the threshold one level up, which merges the sibling sub-trees and renames the declared
+// parameter. All merged sub-trees have the same shape, so the outcome does not depend on which of them the
+// tree samples (the open findings need sub-trees of different shapes).
+func genDeclaredSiblings(r *sim.Rand) kase {
+	k := kase{Regime: "declared-siblings", Threshold: r.Range(2, 4)}
+	host := sim.Pick(r, []string{"api.com", "svc.example.org"})
+	res := sim.Pick(r, []string{"user", "orders"})
+	name := sim.Pick(r, []string{"id", "userId"})
+	for i := 1; i <= k.Threshold; i++ {
+		k.Declared = append(k.Declared, fmt.Sprintf("%s/v%d/%s/{%s}", host, i, res, name))
+	}
+	base := int64(1_700_000_000_000) + int64(r.Intn(1_000_000))
+	add := func(v, id int) {
+		rc := rec{
+			TS:       base + int64(r.Intn(5_000_000)) - 2_000_000,
+			Dur:      sim.Pick(r, []int{0, 1, r.Intn(50), r.Intn(5000)}),
+			Status:   sim.Pick(r, statuses),
+			Method:   "GET",
+			URL:      fmt.Sprintf("%s/v%d/%s/%d", host, v, res, id),
+			Icpt:     interceptors[0],
+			Consumer: consumers[r.Intn(2)],
+		}
+		rc.Tot = rc.Dur + r.Intn(2000)
+		k.Records = append(k.Records, rc)
+	}
+	n1 := r.Range(3, 8)
+	for i := 0; i < n1; i++ {
+		add(r.Range(1, k.Threshold), r.Range(1, 5))
+	}
+	extra := r.Range(1, 2) // further prefixes: the level above the declared parameter converges
+	n2 := r.Range(2, 6)
+	for i := 0; i < n2; i++ {
+		add(r.Range(1, k.Threshold+extra), r.Range(1, 5))
+	}
+	add(k.Threshold+1, r.Range(1, 5))
+	for i := 0; i < r.Range(0, 4); i++ {
+		add(r.Range(1, k.Threshold+extra), r.Range(1, 5))
+	}
+	return k
+}
+
 func fill(r *sim.Rand, k kase, n int, small bool) kase {
 	hosts := []string{"api.com", "svc.example.org"}[:r.Range(1, 2)]
 	// id pools sized around the threshold so the threshold is crossed early, late or never
@@ -1137,6 +1180,16 @@ func main() {
 			v.Count("nontrivial_single_family_cases", 1)
 		}
 		v.Count("single_family_cases", 1)
+	}
+	dlo, dhi := args.Share(args.Pick(160, 4800))
+	for i := dlo; i < dhi; i++ {
+		r := args.CaseRand(2_000_000 + i)
+		k := genDeclaredSiblings(r)
+		if runCase(2_000_000+i, args, r, k, v, scratch) {
+			nontrivial++
+			v.Count("nontrivial_declared_siblings_cases", 1)
+		}
+		v.Count("declared_siblings_cases", 1)
 	}
 	if nontrivial == 0 {
 		v.Inconclude("no case of this batch converged the tree across a batch boundary")
